@@ -91,7 +91,9 @@ func init() {
 				e.ooe("CallSiteConst: only %d call(s) to %s in %s (occurrence %d requested)", len(vals), callee, in, occ)
 			}
 			key := fmt.Sprintf("callsite:%s:%s:%d:%d", in, callee, idx, occ)
-			t := e.intConst(niInt, vals[occ])
+			// several constants can reach the argument (phi): every one is explored
+			pick := vals[occ][e.choose(len(vals[occ]), "callsite:"+key)]
+			t := e.intConst(niInt, pick)
 			e.namedInfo = append(e.namedInfo, NamedVar{Name: key, Kind: "int64", Term: t})
 			return t
 		})
